@@ -616,6 +616,41 @@ def r_element_count_is_announced(r, prog):
     r.floor(3)
 
 
+OWN_ERRORS = {
+    # function (suffix of its path)                                    : (Err values it builds itself, why that rejection is part of the format)
+    'DecodeFrom for alloc::string::String>::decode_from': (1, 'the announced length exceeds the bytes left (before reserving)'),
+    'DecodeFrom for bool>::decode_from': (1, 'a byte other than 0 and 1'),
+    'DecodeFrom for std::collections::hash::map::HashMap<K, V>>::decode_from': (1, 'a key that occurs twice'),
+    'DecodeFrom for alloc::collections::btree::map::BTreeMap<K, V>>::decode_from': (1, 'a key that occurs twice'),
+    'Encoder<O>>::encode_varint': (1, 'a value outside the 62-bit range'),
+    'Encoder<O>>::encode_varuint': (1, 'a value outside the 62-bit range'),
+}
+
+
+def r_own_error_sites(r, prog):
+    """Everything the encoder accepts must decode to the same value, and everything in range must be accepted: besides passing on the errors
+    of the buffer underneath (`?`), the encoding and decoding functions refuse a value *themselves* in exactly the places listed in OWN_ERRORS,
+    each for a reason that is part of the format. A new `Err(..)` built anywhere else in encoding.rs / decoding.rs is a new way to refuse a
+    value (an over-long but valid varint, a sequence longer than the spare capacity of a growable target) and breaks the round trip."""
+    from collections import Counter
+    errs = [a for a in aggregates(prog, 'core::result::Result', 'Err', crates=('slice_codec',))
+            if not a['fn'].blocks[a['bb']].get('cleanup') and re.match(r'^slice_codec::(encoding|decoding)::', re.sub(r'::\{closure#\d+\}', '', a['fn'].path))]
+    cnt = Counter(re.sub(r'::\{closure#\d+\}', '', a['fn'].path) for a in errs)
+    seen = set()
+    for path, n in sorted(cnt.items()):
+        key = [k for k in OWN_ERRORS if path.endswith(k)]
+        if key and n <= OWN_ERRORS[key[0]][0]:
+            seen.add(key[0])
+            r.ok('%s refuses on its own %d time(s)' % (key[0], n), OWN_ERRORS[key[0]][1])
+        else:
+            a = [x for x in errs if re.sub(r'::\{closure#\d+\}', '', x['fn'].path) == path][-1]
+            r.finding('codec-refuses-on-its-own:%s' % re.sub(r'^slice_codec::(encoding|decoding)::', '', path), a['span'],
+                      '%s builds %d error value(s) of its own%s: a value the format allows (or the other side produces) is refused' % (path, n, (' (recorded: %d)' % OWN_ERRORS[key[0]][0]) if key else ''))
+    if len(seen) < 4:
+        raise AnchorMissing('recorded own-error sites of the codec (found %d)' % len(seen))
+    r.floor(4)
+
+
 # --------------------------------------------------------------------------- C10 tables
 INT_WIDTH = {'i8': 8, 'u8': 8, 'i16': 16, 'u16': 16, 'i32': 32, 'u32': 32, 'i64': 64, 'u64': 64}
 
